@@ -114,6 +114,9 @@ pub struct AsyncSink {
     pub output: Vec<u8>,
     max_write: usize,
     pub writes: usize,
+    /// report `is_write_vectored()` and take vectored writes like a socket (bytes from the buffers in
+    /// order, a short write may end inside any of them)
+    vectored: bool,
 }
 
 impl tokio::io::AsyncRead for AsyncSink {
@@ -137,6 +140,17 @@ impl tokio::io::AsyncWrite for AsyncSink {
         self.writes += 1;
         std::task::Poll::Ready(Ok(n))
     }
+    fn poll_write_vectored(
+        self: std::pin::Pin<&mut Self>,
+        cx: &mut std::task::Context<'_>,
+        bufs: &[io::IoSlice<'_>],
+    ) -> std::task::Poll<io::Result<usize>> {
+        let joined: Vec<u8> = bufs.iter().flat_map(|b| b.iter().copied()).collect();
+        self.poll_write(cx, &joined)
+    }
+    fn is_write_vectored(&self) -> bool {
+        self.vectored
+    }
     fn poll_flush(self: std::pin::Pin<&mut Self>, _cx: &mut std::task::Context<'_>) -> std::task::Poll<io::Result<()>> {
         std::task::Poll::Ready(Ok(()))
     }
@@ -145,8 +159,12 @@ impl tokio::io::AsyncWrite for AsyncSink {
     }
 }
 
+thread_local! {
+    static VECTORED: std::cell::Cell<bool> = const { std::cell::Cell::new(false) };
+}
+
 fn async_connection(max_write: usize) -> mpd_protocol::AsyncConnection<AsyncSink> {
-    let io = AsyncSink { input: b"OK MPD 0.23.5\n".to_vec(), pos: 0, output: Vec::new(), max_write, writes: 0 };
+    let io = AsyncSink { input: b"OK MPD 0.23.5\n".to_vec(), pos: 0, output: Vec::new(), max_write, writes: 0, vectored: VECTORED.with(|v| v.get()) };
     crate::seg::block_on(mpd_protocol::AsyncConnection::connect(io)).expect("greeting accepted")
 }
 
@@ -166,6 +184,14 @@ pub fn async_sent_list_bytes(list: CommandList, max_write: usize) -> Vec<u8> {
 
 /// Both flavours must put the same bytes on the wire, whatever the transport accepts per write.
 pub fn both_flavours_agree(cmd: &Command, list: Option<&CommandList>, max_write: usize) -> Result<(), String> {
+    // the transport's write limit also decides whether it takes vectored writes (both kinds occur)
+    VECTORED.with(|v| v.set(max_write % 2 == 1));
+    let r = both_flavours_agree_inner(cmd, list, max_write);
+    VECTORED.with(|v| v.set(false));
+    r.map_err(|e| if max_write % 2 == 1 { format!("{e} [transport with vectored writes]") } else { e })
+}
+
+fn both_flavours_agree_inner(cmd: &Command, list: Option<&CommandList>, max_write: usize) -> Result<(), String> {
     let b = sent_bytes(cmd.clone());
     let a = async_sent_bytes(cmd.clone(), max_write);
     if a != b {
